@@ -411,6 +411,26 @@ def recover_and_redo(ctx, binp, c, i, mode="prune"):
     return {"rc": rc, "out": out, "state": rst, "mode": mode}, obs
 
 
+def part_record_state(st):
+    """the download state a restart left: "torn" (a part record that cannot be read), "inconsistent" (readable records that do
+    not add up to the size of the -partial file, or no -partial file), "consistent", "none" """
+    recs, partial = {}, {}
+    for b in st["blobs"]:
+        m = re.match(r"^(sha256-[0-9a-f]{64})-partial(-\d+)?$", b["name"])
+        if m and m.group(2):
+            recs.setdefault(m.group(1), []).append(b)
+        elif m:
+            partial[m.group(1)] = b["size"]
+    if not recs:
+        return "none"
+    if any(r.get("part") == "torn" for rs_ in recs.values() for r in rs_):
+        return "torn"
+    for d, rs_ in recs.items():
+        if d not in partial or sum(r.get("part_size", 0) for r in rs_) != partial[d]:
+            return "inconsistent"
+    return "consistent"
+
+
 def strip_temp(st):
     return {"manifests": st["manifests"], "blobs": st["blobs"]}
 
@@ -465,13 +485,14 @@ def monitor_case(c):
         # restore the uninterrupted result; C12_redo_torn_exact: otherwise it cannot)
         req_names = [parse_name(o["dst"] if o["op"] == "copy" else o["name"]) for o in c.group if o["op"] in ("create", "copy", "pull")]
         respelled = any(tuple(p.split("/")) not in req_names for p in torn_paths)
-        torn_rec = any(b.get("part") == "torn" for b in rst["blobs"])
-        if ref_ok and not ok and torn_rec and any(o["op"] == "pull" for o in c.group):
+        part_records = part_record_state(rst)
+        torn_rec = part_records == "torn"
+        if ref_ok and not ok and part_records in ("torn", "inconsistent") and any(o["op"] == "pull" for o in c.group):
             # the model describes the repaired Prepare (fixes/C12-torn-part-record.patch); where the code still fails on a torn
             # part record the repeated pull is not compared with the model
             c.skip_redo_corr.add(j)
         if ref_ok and not ok:
-            out.append(({"class": "redo-fails", "op": kinds, "self_referential": selfref, "torn_manifest": torn, "torn_part_record": torn_rec,
+            out.append(({"class": "redo-fails", "op": kinds, "self_referential": selfref, "torn_manifest": torn, "part_records": part_records,
                          "restart": mode},
                         "repeating %s after a crash at prefix %d and a restart (%s) fails: %s" % (kinds, i, mode, [(ob.get("code"), ob.get("errors"), ob.get("body", "")[-120:]) for ob in redo]), i))
         elif ref_ok:
@@ -643,12 +664,14 @@ def run(ctx):
                    "must equal the directory the traced run left; sampled real SIGKILLs must land on replayed states)",
                    "the file system: a killed process leaves exactly the effects of its completed system calls; no torn writes, no reordering after a power loss",
                    "Go harness harness/cmd/c04, python generator/monitor"]
+    ctx.extra["restart_modes"] = "every crash state: normal start-up (pruning, unless a manifest is unreadable); pulls and every third other case also OLLAMA_NOPRUNE=1"
     ctx.assumptions = ["the registry is honest (serves bytes that hash to the digest it lists); dishonest registries are C03's subject",
                        "crash = death of the server process (SIGKILL) between two system calls; a torn single write() is not modelled",
                        "a crash during the start-up sequence itself is not enumerated"]
     ctx.proof_stage(["Store"], "Store/Properties_C12.v", extra_targets=["Store/Corr.v"],
                     expect_theorems=["C12_crash_sound", "C12_reachable_inv", "C12_idempotent_redo_partial", "C12_idempotent_redo_guarded",
-                                     "C12_redo_torn_exact", "C12_redo_upload_create", "C12_idempotent_redo_refuted"])
+                                     "C12_redo_torn_exact", "C12_redo_upload_create", "C12_idempotent_redo_refuted",
+                                     "C12_crash_sound_noprune", "C12_idempotent_redo_noprune"])
     if not ctx.quick():
         ctx.coqchk(["V.Store.Properties_C12"])
     binp = ctx.go_build("c04")
@@ -663,7 +686,7 @@ def run(ctx):
         plan.append(classes[i % len(classes)])
     plan += ["pull"] * (3 if ctx.quick() else 40)
     if not ctx.quick():
-        plan += ["pull-big"] * 2   # a layer of two download parts (> 100 MB, all-zero body): monitor only
+        plan += ["pull-big"] * 1   # a layer of two download parts (> 100 MB, all-zero body): monitor only
     pres = [gen_pre(rng, fx) for _ in plan]
     pobs, err = c04.run_histories(ctx, binp, pres, noapi=True)
     if pobs is None:
